@@ -202,6 +202,12 @@ func validateV1alpha1RolloutSpecCanarySteps(c *validateContext, steps []appsv1al
 				return field.ErrorList{field.Invalid(fldPath.Index(i).Child("steps"), steps,
 					`For patition style rollout: step[x].replicas must not greater than replicasLimitWithTraffic if traffic or matches specified`)}
 			}
+			// a weight given together with replicas must be a legal traffic percentage as well
+			// (it is converted to the v1beta1 traffic "<weight>%", which must be in (0%, 100%])
+			if s.Weight != nil && (*s.Weight <= 0 || *s.Weight > 100) {
+				return field.ErrorList{field.Invalid(fldPath.Index(i).Child("Weight"), s.Weight,
+					`weight must be positive number, and less than or equal to 100`)}
+			}
 		} else {
 			// replicas is nil, weight is not nil
 			if c.style == string(appsv1alpha1.PartitionRollingStyle) && *s.Weight > int32(PartitionReplicasLimitWithTraffic) {
